@@ -3,6 +3,7 @@ package valuegen
 import (
 	"fmt"
 	"math"
+	"unsafe"
 
 	"github.com/basecomplextech/baselibrary/bin"
 	"github.com/basecomplextech/baselibrary/buffer"
@@ -134,6 +135,13 @@ func (x *Exec) Run(root *Node, mode WriterMode) ([]byte, error) {
 		return x.pooledRoot(root, x.dirtyBuf)
 	}
 	return nil, fmt.Errorf("unknown writer mode %d", mode)
+}
+
+func unsafeString(b []byte) string {
+	if len(b) == 0 {
+		return ""
+	}
+	return unsafe.String(&b[0], len(b))
 }
 
 func clone(b []byte) []byte { return append([]byte(nil), b...) }
@@ -349,7 +357,7 @@ func WriteStruct(b buffer.Buffer, n *Node) (int, error) {
 		case KBytes:
 			m, err = spec.EncodeBytes(b, f.B)
 		case KString:
-			m, err = spec.EncodeString(b, string(f.B))
+			m, err = spec.EncodeString(b, unsafeString(f.B))
 		case KStruct:
 			m, err = WriteStruct(b, f)
 		default:
